@@ -65,6 +65,7 @@ def scalars_any():
     special += [1 << k for k in (8, 64, 128, 255)] + [(1 << k) - 1 for k in (8, 64, 128, 255, 256)]
     special += ENDO + [w for w in WRAP if w < 2**256]
     return st.one_of(
+        st.sampled_from([0, 1, N - 1, N, N + 1, 2**256 - 1]),
         st.sampled_from(special),
         # a special value followed by a few more bits (what a left-to-right ladder sees as a prefix)
         st.tuples(st.sampled_from(ENDO + WRAP + [N - 1, N, N + 1]), st.integers(1, 6)).flatmap(
@@ -80,6 +81,7 @@ def scalars_valid():
     special = [1, 2, 3, N - 2, N - 1, N // 2, N // 2 + 1, 1 << 255, (1 << 255) - 1, 0xFF, 0x100]
     special += ENDO + [w for w in WRAP if w < N]
     return st.one_of(
+        st.sampled_from([1, 2, N - 2, N - 1]),  # the ends of the valid range keep their own weight
         st.sampled_from(special),
         st.sampled_from(special),
         st.integers(1, 31).flatmap(lambda z: st.integers(1, (1 << (8 * (32 - z))) - 1)),
